@@ -165,7 +165,7 @@ def run(ctx):
     failed_first(ctx, "R5.3")
 
     # ---- R5.4
-    sb = prog.one(r"@bin::ifchange::should_build")
+    sb = anchors.ifchange_verdict(prog)
     sba = BA.of(sb)
     isf = sba.switches_on_call(r"state::File::is_failed")
     isd = sba.calls(r"deps::is_dirty")
